@@ -484,11 +484,17 @@ def refit_history(datasets, params, steps, on_stage=None):
             if on_stage:
                 on_stage(0, "first", est, params, cur, True)
             for si, (what, upd) in enumerate(steps, 1):
-                params = apply_step(est, params, what, upd)
+                fitkw = {}
+                if what == "W":
+                    # an arbitrary W handed to fit although the regressor is a real estimator: the
+                    # code ignores it (W is the regressor's own coefficient matrix)
+                    fitkw["W"] = np.random.default_rng(upd["wseed"]).normal(size=(X.shape[1], np.atleast_2d(Y.T).shape[0]))
+                else:
+                    params = apply_step(est, params, what, upd)
                 if what == "arrays":
                     cur = upd["ds"]
                     X, Y = datasets[cur]
-                est.fit(X, Y)                           # same array objects unless 'arrays'
+                est.fit(X, Y, **fitkw)                  # same array objects unless 'arrays'
                 cold = _refit_make(params).fit(X, Y)
                 a, b = _summary(est, X), _summary(cold, X)
                 dev = max(float(np.abs(u - v).max()) / (1.0 + float(np.abs(v).max())) for u, v in zip(a, b))
@@ -517,8 +523,10 @@ def gen_history(rng, quick, hi):
     steps = []
     cur_k, cur_kmax, cur_sv = params["n_components"], kmax, "full"
     for _ in range(rng.randint(2, 4)):
-        what = rng.choice(["regressor", "regressor", "n_components", "mixing", "space", "tol", "solver", "arrays"])
-        if what == "regressor":
+        what = rng.choice(["regressor", "regressor", "n_components", "mixing", "space", "tol", "solver", "arrays", "W"])
+        if what == "W":
+            steps.append(["W", dict(wseed=rng.getrandbits(32))])
+        elif what == "regressor":
             steps.append(["regressor", dict(alpha=rng.choice([1.0, 3.0, 10.0]))])
         elif what == "n_components":
             # arpack admits only k < min(n, m)
@@ -704,6 +712,34 @@ def run_fit_transform(ctx, report):
 
         def make():
             return PCovR(mixing=a, n_components=k, space=space, svd_solver="full", regressor=reg, random_state=0)
+        if not kind.startswith("pre") and rng.random() < 0.6:
+            # an arbitrary W although the regressor is a real estimator: fit must ignore it
+            Wa = g.normal(size=(ds["m"], ds["p"]))
+            stats["arbitrary_W_real_regressor"] = stats.get("arbitrary_W_real_regressor", 0) + 1
+            with warnings.catch_warnings():
+                warnings.simplefilter("ignore")
+                try:
+                    e0 = make().fit(X, yfit)
+                    eW = make().fit(X, yfit, W=Wa)
+                    same = all(np.array_equal(getattr(e0, nm), getattr(eW, nm)) for nm in ("pxt_", "ptx_", "pty_", "pxy_"))
+                    msgW = None
+                    if not same:
+                        TW = eW.transform(X)
+                        SW = eW.singular_values_ ** 2
+                        if shift == 0 and not kind.endswith("icpt") and SW.min() > 1e-6 * SW.max():
+                            GW = TW.T @ TW
+                            rtW = float(np.abs(eW.ptx_ @ eW.pxt_ - np.eye(len(SW))).max())
+                            if float(np.abs(GW - np.diag(SW)).max()) > 1e-6 * (1 + float(SW.max())):
+                                msgW = "T^T T is not diag(retained eigenvalues) (max dev %.3g)" % float(np.abs(GW - np.diag(SW)).max())
+                            elif rtW > 1e-6:
+                                msgW = "ptx_ @ pxt_ is not the identity (max dev %.3g)" % rtW
+                except Exception as e:                   # noqa
+                    same, msgW = False, "fit raised %s: %s" % (type(e).__name__, str(e)[:120])
+            if not same:
+                caseW = dict(fit_transform=dict(X=X.tolist(), Y=np.asarray(yfit).tolist(), W=Wa.tolist(), cfg=dict(cfg, arbitrary_W=True)))
+                report(ctx, ("C14 fails on the implementation: fit(X, Y, W) with an arbitrary W and regressor %s (%s space): %s" % (kind, e0.space_ if 'e0' in dir() else space, msgW))
+                       if msgW else "correspondence broken: fit(X, Y, W) with a real regressor (%s) depends on the W passed: the projectors differ from those of fit(X, Y)" % kind,
+                       dict(case=caseW), found_input=bool(msgW))
         stats["cases"] += 1
         stats["not_centred"] += int(shift >= 1)
         stats["intercept"] += int(kind.endswith("icpt"))
@@ -762,6 +798,13 @@ def replay_fit_transform(obj):
             return "raised %s: %s" % (type(e).__name__, str(e)[:140])
     Tm = (X - e2.mean_) @ e2.pxt_
     d = float(np.abs(np.asarray(T2) - Tm).max()) / (1.0 + float(np.abs(Tm).max()))
+    if cfg.get("arbitrary_W"):
+        S = e2.singular_values_ ** 2
+        T = e2.transform(X)
+        if np.abs(T.T @ T - np.diag(S)).max() > 1e-6 * (1 + S.max()):
+            return "with an arbitrary W and a real regressor T^T T is not diag(retained eigenvalues)"
+        if np.abs(e2.ptx_ @ e2.pxt_ - np.eye(len(S))).max() > 1e-6:
+            return "with an arbitrary W and a real regressor ptx_ @ pxt_ is not the identity"
     return ("fit_transform(X, Y) is not (X - mean_) @ pxt_ (rel dev %.3g)" % d) if d > 1e-8 else None
 
 
@@ -987,3 +1030,123 @@ def replay_presentation(obj):
         except Exception as e:                               # noqa
             return "raised %s: %s" % (type(e).__name__, str(e)[:140])
         return presented_clause_failure(est, ds["X"], T, 2e-3 if kind == "float32" else 1e-6)
+
+
+# ------------------------------------------------------------------------------ family bigrand
+def run_big_randomized(ctx, report):
+    """svd_solver='randomized' on problems with min(n, m) > k + 10 (30-60 x 25-40, k <= 5, decaying
+    well-separated spectrum), both spaces.  Too large for the in-Coq evaluation, so the statements
+    of the theorems are evaluated on the implementation: the identities that hold for ANY
+    orthonormal top-k basis the solver returns - ptx_ @ pxt_ = I_k (C14_roundtrip_identity),
+    T^T T = diag(singular_values_^2) (C14_orthogonal_scores), predict(X) = predict(T = transform(X)),
+    score = -(l_X + l_Y) - at 1e-6, and (gap at the cut >= 1e-2) the basis-invariant pxt_ @ ptx_,
+    T T^T against the full solver at 1e-5."""
+    from sklearn.linear_model import Ridge
+    from skmatter.decomposition import PCovR
+    rng = ctx.rng
+    nds = 10 if ctx.quick else 60
+    stats = dict(fits=0, identities_ok=0, compared_with_full=0, skipped_gap=0)
+    for di in range(nds):
+        g = np_rng_from(rng)
+        n, m = rng.randint(30, 60), rng.randint(25, 40)
+        r = min(n - 1, m)
+        U = np.linalg.qr(g.normal(size=(n, r)) - 0)[0]
+        V = np.linalg.qr(g.normal(size=(m, r)))[0]
+        sv = 10.0 * 0.7 ** np.arange(r)
+        X = (U * sv) @ V.T
+        X -= X.mean(axis=0)
+        p = rng.choice([1, 2])
+        Y = X @ g.normal(size=(m, p)) + 0.2 * g.normal(size=(n, p))
+        Y -= Y.mean(axis=0)
+        for sp in ("feature", "sample"):
+            k = rng.randint(1, 5)
+            a = rng.choice([0.3, 0.5, 0.8, 1.0])
+            alpha = rng.choice([1e-6, 1e-3])
+            cfg = dict(n=n, m=m, k=k, space=sp, a=a, alpha=alpha)
+            case = dict(bigrand=dict(X=X.tolist(), Y=Y.tolist(), cfg=cfg))
+
+            def make(solver):
+                return PCovR(mixing=a, n_components=k, space=sp, svd_solver=solver, random_state=0,
+                             regressor=Ridge(alpha=alpha, fit_intercept=False, tol=1e-12))
+            with warnings.catch_warnings():
+                warnings.simplefilter("ignore")
+                try:
+                    e = make("randomized").fit(X, Y)
+                    msg = big_identities(e, X, Y)
+                    f = make("full").fit(X, Y)
+                except Exception as ex:                  # noqa
+                    report(ctx, "C14 fails on the implementation: randomized fit on a %dx%d X raised %s: %s"
+                           % (n, m, type(ex).__name__, str(ex)[:140]), dict(case=case), found_input=True)
+                    continue
+                stats["fits"] += 1
+                if msg:
+                    report(ctx, "C14 fails on the implementation: svd_solver='randomized', %s space, %dx%d X, k=%d: %s"
+                           % (sp, n, m, k, msg), dict(case=case), found_input=True)
+                    continue
+                stats["identities_ok"] += 1
+                # against the full solver, only with a clear gap at the cut
+                fk1 = PCovR(mixing=a, n_components=k + 1, space=sp, svd_solver="full", random_state=0,
+                            regressor=Ridge(alpha=alpha, fit_intercept=False, tol=1e-12)).fit(X, Y)
+                S1 = fk1.singular_values_ ** 2
+                if (S1[k - 1] - S1[k]) / S1[0] < 1e-2:
+                    stats["skipped_gap"] += 1
+                    continue
+                stats["compared_with_full"] += 1
+                Te, Tf = e.transform(X), f.transform(X)
+                for nm, A, B in (("pxt_ @ ptx_", e.pxt_ @ e.ptx_, f.pxt_ @ f.ptx_), ("T T^T", Te @ Te.T, Tf @ Tf.T),
+                                 ("pxy_", np.atleast_2d(e.pxy_), np.atleast_2d(f.pxy_))):
+                    d = float(np.abs(A - B).max()) / (1.0 + float(np.abs(B).max()))
+                    if d > 1e-5:
+                        report(ctx, "correspondence broken: svd_solver='randomized' and 'full' disagree on %s (rel dev %.3g) for a %dx%d "
+                               "decaying-spectrum X, k=%d, %s space" % (nm, d, n, m, k, sp), dict(case=case), found_input=False)
+                        break
+    return stats
+
+
+def big_identities(e, X, Y):
+    S = e.singular_values_ ** 2
+    if not (np.all(np.isfinite(S)) and S.min() > 1e-8 * S.max() and S.min() > 1e3 * e.tol):
+        return None
+    T = e.transform(X)
+    rt = float(np.abs(e.ptx_ @ e.pxt_ - np.eye(len(S))).max())
+    if rt > 1e-6:
+        return "ptx_ @ pxt_ is not the identity (max dev %.3g)" % rt
+    G = T.T @ T
+    if float(np.abs(G - np.diag(S)).max()) > 1e-6 * (1 + float(S.max())):
+        return "T^T T is not diag(retained eigenvalues) (max dev %.3g)" % float(np.abs(G - np.diag(S)).max())
+    # ... the retained eigenvalues being those of the modified matrix the MODEL forms (numpy mirror of
+    # cov_prog / kern_prog): eigenvalues do not depend on the basis and are well conditioned
+    Yh = e.regressor_.predict(X).reshape(X.shape[0], -1)
+    mn = P.model_np(X, Yh, e.mixing)
+    Sm = np.sort(np.linalg.eigvalsh(mn["Kt"] if e.space_ == "sample" else mn["Ct"]))[::-1][:len(S)]
+    if float(np.abs(np.diag(G) - Sm).max()) > 1e-6 * (1 + float(Sm.max())):
+        return ("the squared norms of the training latent coordinates %s are not the top eigenvalues %s of the modified %s matrix"
+                % (np.array2string(np.diag(G), precision=6), np.array2string(Sm, precision=6),
+                   "Gram" if e.space_ == "sample" else "covariance"))
+    back = e.transform(e.inverse_transform(T))
+    if float(np.abs(back - T).max()) > 1e-6 * (1 + float(np.abs(T).max())):
+        return "transform(inverse_transform(T)) != T (max dev %.3g)" % float(np.abs(back - T).max())
+    pr, pt = np.asarray(e.predict(X)), np.asarray(e.predict(T=T))
+    if float(np.abs(pr - pt).max()) > 1e-7 * (1 + float(np.abs(pr).max())):
+        return "predict(X) != predict(T=transform(X))"
+    Ys = Y if np.asarray(pt).ndim == 2 else Y[:, 0]
+    sc = e.score(X, Ys)
+    lx = np.linalg.norm(X - e.inverse_transform(T)) ** 2 / np.linalg.norm(X) ** 2
+    ly = np.linalg.norm(Ys - pt) ** 2 / np.linalg.norm(Ys) ** 2
+    if abs(sc + lx + ly) > 1e-9 * (1 + abs(sc)):
+        return "score != -(l_X + l_Y)"
+    return None
+
+
+def replay_bigrand(obj):
+    from sklearn.linear_model import Ridge
+    from skmatter.decomposition import PCovR
+    X, Y, cfg = np.asarray(obj["X"], dtype=float), np.asarray(obj["Y"], dtype=float), obj["cfg"]
+    with warnings.catch_warnings():
+        warnings.simplefilter("ignore")
+        try:
+            e = PCovR(mixing=cfg["a"], n_components=cfg["k"], space=cfg["space"], svd_solver="randomized", random_state=0,
+                      regressor=Ridge(alpha=cfg["alpha"], fit_intercept=False, tol=1e-12)).fit(X, Y)
+        except Exception as ex:                          # noqa
+            return "raised %s: %s" % (type(ex).__name__, str(ex)[:140])
+        return big_identities(e, X, Y)
